@@ -383,6 +383,11 @@ class Escape:
         base = sub.value
         bt = src(base)
         idx = sub.slice
+        # a literal table read with a key that can only be one of its keys: {4: A, 16: B}[n] with n = 4 if c else 16
+        if isinstance(base, ast.Dict) and base.keys and all(isinstance(k, ast.Constant) for k in base.keys):
+            vals = self._const_values(fi, idx)
+            if vals is not None and vals <= {k.value for k in base.keys}:
+                return []
         # direct struct result: unpack(...)[k]
         if isinstance(base, ast.Call):
             r = self.res.resolve_call(base, fi, count=False)
@@ -484,10 +489,16 @@ class Escape:
                             nargs += len(t_[3]) - 1         # *record: one value per field
                         elif t_[0] == 'tuple':
                             nargs += len(t_[1]) - 1
-                if fmt is None or '{' in fmt and re.search(r'\{[^}]*\}(?![sp])', fmt) and False:
-                    out.append(('struct.error', 'pack with non-constant format', call))
-                elif struct_fields(fmt)[0] != nargs:
-                    out.append(('struct.error', 'pack %r with %d values' % (fmt, nargs), call))
+                fmts = [fmt]
+                a0 = call.args[0]
+                if fmt is None and isinstance(a0, ast.Subscript) and isinstance(a0.value, ast.Dict) and a0.value.values and all(
+                        isinstance(v_, ast.Constant) and isinstance(v_.value, str) for v_ in a0.value.values):
+                    fmts = [v_.value for v_ in a0.value.values]         # one of the formats of a literal table
+                for fmt in fmts:
+                    if fmt is None or '{' in fmt and re.search(r'\{[^}]*\}(?![sp])', fmt) and False:
+                        out.append(('struct.error', 'pack with non-constant format', call))
+                    elif struct_fields(fmt)[0] != nargs:
+                        out.append(('struct.error', 'pack %r with %d values' % (fmt, nargs), call))
             elif lib == 'method.decode' and (len(call.args) > 1 or any(
                     k.arg == 'errors' and isinstance(k.value, ast.Constant) and k.value.value != 'strict'
                     for k in call.keywords)):
@@ -570,6 +581,18 @@ class Escape:
             out.append(n)
         return out
 
+    def _assert_proved(self, fi, st):
+        """an `assert a <= b` whose comparison follows from the conditions on every path to it (linear facts: a length checked
+        before, the size of a packed header, len() >= 0) cannot fail"""
+        sv = self.sval(fi)
+        if sv is None or id(st.test) not in sv.terms or id(st.test) not in sv.conds:
+            return False
+        from . import bounds
+        try:
+            return bounds.proves(sv.terms[id(st.test)], sv.conds[id(st.test)])
+        except Exception:
+            return False
+
     def direct(self, fi):
         if fi.qual in self._direct:
             return self._direct[fi.qual], self._calls[fi.qual]
@@ -577,7 +600,7 @@ class Escape:
         dmap, cmap = {}, {}
         for n in g.nodes:
             effs, calls = [], []
-            if n.kind == 'afail':
+            if n.kind == 'afail' and not self._assert_proved(fi, n.ast):
                 effs.append(('AssertionError', 'assert %s' % src(n.ast.test)[:60], n.ast))
             if n.kind == 'stmt' and isinstance(n.ast, ast.Raise):
                 effs += self._raise_effects(fi, n.ast)
